@@ -413,6 +413,41 @@ func main() {
 		cmdWorker(os.Args[2:])
 	case "ftab":
 		cmdFtab(os.Args[2:])
+	case "gen-completion":
+		fs := flag.NewFlagSet("gen-completion", flag.ExitOnError)
+		seed := fs.Int64("seed", 1, "")
+		ntrees := fs.Int("ntrees", 50, "")
+		per := fs.Int("per", 20, "")
+		outTrees := fs.String("trees", "trees.ndjson", "")
+		outDecls := fs.String("decls", "decls.ndjson", "")
+		outScen := fs.String("scen", "scen.ndjson", "")
+		fs.Parse(os.Args[2:])
+		r := rand.New(rand.NewSource(*seed))
+		ft, _ := os.Create(*outTrees)
+		fd, _ := os.Create(*outDecls)
+		fsn, _ := os.Create(*outScen)
+		wt, wd, ws := bufio.NewWriter(ft), bufio.NewWriter(fd), bufio.NewWriter(fsn)
+		id := 0
+		for n := 1; n <= *ntrees; {
+			completerBias = true
+			t := genTree(r, n)
+			completerBias = false
+			Flatten(t)
+			if !treeOK(t) {
+				continue
+			}
+			t.ID = n
+			wt.Write(marshalLine(t))
+			wd.Write(marshalLine(Flatten(t)))
+			for k := 0; k < *per; k++ {
+				id++
+				ws.Write(marshalLine(genCompletion(r, t, id)))
+			}
+			n++
+		}
+		wt.Flush()
+		wd.Flush()
+		ws.Flush()
 	case "conv-trees":
 		cmdConvTrees(os.Args[2:])
 	case "gen-session":
